@@ -22,7 +22,8 @@ def run(ctx):
                 "relative target path with the driver chdir'ed next to the target or elsewhere (ten spellings of the same file: "
                 "./x, ../t/x, sub/../x, symlinked-dir/../x, via a symlinked directory, cwd entered through a symlink, ..//t/./x), partial reads of "
                 "{0,1,8,9,16KiB,all} bytes (optionally followed by read_to_end) before commit, address pre-existing as regular content or not, post-link "
-                "mutation of the target [none/modify/truncate/replace/remove]). Judged: read(key)/read_hash(address) "
+                "mutation of the target [none/modify/truncate/replace/remove], then removal of the linked entry by key (fully) or by "
+                "address: the link must leave the content area even when it dangles, the owner's file stays untouched). Judged: read(key)/read_hash(address) "
                 "bytes, recorded size, lstat of the content path (symlink unless a regular file pre-existed), target "
                 "bytes/mode/mtime unchanged, reads after mutation never Ok with different bytes, size/integrity "
                 "options enforced. distinct = (mode, entry point, length class, path kind, pre-existing?, mutation)")
@@ -227,11 +228,34 @@ def run(ctx):
                                           f"{qq['op']} still returned Ok", det)
                     elif ev.variant(rr) not in ("IntegrityError", "IoError"):
                         ctx.violation(sig + f"|after-{mutation}|{ev.variant(rr)}", f"after {mutation}: {ev.brief(rr)}", det)
-                # clean the dangling/invalid link so later cases with equal data start fresh
-                try:
-                    os.unlink(cpath)
-                except OSError:
-                    pass
+            # finally the linked entry is removed (fully by key, or by address): the link must be gone from the content
+            # area - also when it dangles - and the owner's file, if it still exists, must not be touched by that
+            tb = snap(tpath) if os.path.lexists(tpath) else None
+            rq = ({"op": "remove_fully", "cache": cache, "key": key} if keyed and rng.random() < 0.6
+                  else {"op": "remove_hash", "cache": cache, "sri": sri})
+            rr = ctx.call(mode, rq)
+            ctx.count("removals_of_linked_entries")
+            rdet = dict(det, removal=[mode, rq], mutation=mutation)
+            if not ev.is_ok(rr):
+                ctx.violation(sig + f"|{rq['op']}-after-{mutation}|{ev.variant(rr)}",
+                              f"{rq['op']} of a linked entry (target {mutation}) failed: {ev.brief(rr)}", rdet)
+            else:
+                if os.path.lexists(cpath):
+                    ctx.violation(sig + f"|{rq['op']}-after-{mutation}|link-left-behind",
+                                  f"{rq['op']} of a linked entry (target {mutation}) returned Ok but the link is still in the content "
+                                  f"area ({'dangling' if not os.path.exists(cpath) else 'live'})", rdet)
+                if rq["op"] == "remove_fully":
+                    md = ctx.call(mode, {"op": "metadata", "cache": cache, "key": key})
+                    if not (ev.is_ok(md) and md["ok"]["entry"] is None):
+                        ctx.violation(sig + f"|remove_fully-after-{mutation}|still-mapped", f"key still mapped after remove_fully: {ev.brief(md)}", rdet)
+                ta = snap(tpath) if os.path.lexists(tpath) else None
+                if ta != tb:
+                    ctx.violation(sig + f"|{rq['op']}-after-{mutation}|target-touched",
+                                  "removing a linked entry changed (or removed) the owner's file", rdet)
+            try:
+                os.unlink(cpath)
+            except OSError:
+                pass
         ctx.case(distinct_key=(mode, ep, lclass, pathkind, pre, mutation),
                  sample={"mode": mode, "entry_point": ep, "target_len": ln, "path": pathkind, "target_arg": tgt,
                          "pre_existing": pre, "mutation": mutation, "reads": req.get("reads")})
